@@ -208,8 +208,10 @@ Module PC.
       match hand with
       | HBuf => if len (errs (ch s)) <? cap c
                 then Some (c_errs (ch s) (ch_push (errs (ch s))), ap s, closed (errs (ch s))) else None
-      | HApp => if (len (errs (ch s)) =? 0) && negb (draining s)
-                then Some (ch s, ap s, closed (errs (ch s))) else None
+      | HApp => match ap s with
+                | ApIdle => if len (errs (ch s)) =? 0 then Some (ch s, ap s, closed (errs (ch s))) else None
+                | _ => None
+                end
       | HClose => match ap s with
                   | ApDrain n => if len (errs (ch s)) =? 0 then Some (ch s, ApDrain (S n), closed (errs (ch s))) else None
                   | _ => None
@@ -269,15 +271,15 @@ Module PC.
     | ARet n => match ap s with ApRet m => if n =? m then Some (with_ap s ApIdle) else None | _ => None end
     | ARecvMsg => match len (msgs x) with S _ => Some (with_ch s (c_msgs x (ch_pop (msgs x))) false) | 0 => None end
     | ARecvErr =>
+      (* the application itself reads Errors() only while none of its Close() calls is in progress *)
       match ap s, len (errs x) with
-      | ApDrain _, _ => None
-      | _, S _ => Some (with_ch s (c_errs x (ch_pop (errs x))) false)
-      | _, 0 => None
+      | ApIdle, S _ => Some (with_ch s (c_errs x (ch_pop (errs x))) false)
+      | _, _ => None
       end
     | ASeeClosedM => if closed (msgs x) && (len (msgs x) =? 0) && negb (seen_m x)
                      then Some (with_ch s (c_seen x true (seen_e x)) false) else None
     | ASeeClosedE => if closed (errs x) && (len (errs x) =? 0) && negb (seen_e x)
-                     then match ap s with ApDrain _ => None | _ => Some (with_ch s (c_seen x (seen_m x) true) false) end
+                     then match ap s with ApIdle => Some (with_ch s (c_seen x (seen_m x) true) false) | _ => None end
                      else None
     (* ---------------- dispatcher ---------------- *)
     | ADTake => match dp s with
